@@ -27,6 +27,7 @@ deriving DecidableEq, Repr
 structure Conn where
   kind : ConnKind
   cid : Nat
+  node : Nat := 0          -- the server node the connection is attached to
 deriving DecidableEq, Repr
 
 structure Mapping where
@@ -46,6 +47,7 @@ structure World where
   maps : List Mapping
   codes : List Code
   doms : List Nat          -- owner of each HTTP domain mapping
+  bridge : Bool := false   -- a BridgeManager (message broker) joins the nodes; storage is shared by all nodes
 deriving DecidableEq, Repr
 
 /-- One command packet.  `m k d` name a mapping / code / domain: index ≥ 0, `-2` = an id that does
@@ -104,26 +106,40 @@ deriving DecidableEq, Repr
 the client id bound to the connection by a successful handshake, else 0. -/
 def ident (w : World) (f : Nat) : Nat :=
   match w.conns[f]? with
-  | some ⟨.auth, c⟩ => c
+  | some ⟨.auth, c, _⟩ => c
   | _ => 0
 
 /-- a control connection is registered for the connection (`clientRegistry.GetByConnID ≠ nil`) -/
 def isCtl (w : World) (f : Nat) : Bool :=
   match w.conns[f]? with
-  | some ⟨.bare, _⟩ => false
+  | some ⟨.bare, _, _⟩ => false
   | some _ => true
   | none => false
 
-/-- `ClientRegistry.GetByClientID`: the connection that authenticated as `c` last. -/
-def onlineAux (c : Nat) : List Conn → Nat → Option Nat
+/-- the node a connection is attached to (each node has its own `SessionManager` and client registry) -/
+def nodeOf (w : World) (f : Nat) : Nat :=
+  match w.conns[f]? with
+  | some c => c.node
+  | none => 0
+
+/-- `ClientRegistry.GetByClientID` on node `nd`: the connection of that node that authenticated as `c` last. -/
+def onlineAux (nd c : Nat) : List Conn → Nat → Option Nat
   | [], _ => none
   | x :: xs, i =>
-    match onlineAux c xs (i + 1) with
+    match onlineAux nd c xs (i + 1) with
     | some j => some j
-    | none => if x.kind == .auth && x.cid == c then some i else none
+    | none => if x.kind == .auth && x.cid == c && x.node == nd then some i else none
 
-def online (w : World) (c : Int) : Option Nat :=
-  if c ≤ 0 then none else onlineAux c.toNat w.conns 0
+def online (w : World) (nd : Nat) (c : Int) : Option Nat :=
+  if c ≤ 0 then none else onlineAux nd c.toNat w.conns 0
+
+/-- the nodes of the deployment (those that have a connection) -/
+def nodes (w : World) : List Nat := (w.conns.map (·.node)).eraseDups
+
+/-- `BroadcastTunnelOpen(req, target)` → every node's `handleTunnelOpenBroadcast`: each node on which the
+client is connected pushes a TunnelOpenRequest to it -/
+def broadcastOpen (w : World) (target : Int) : List Dlv :=
+  (nodes w).filterMap (fun n => (online w n target).map (fun tc => ⟨tc, c11.cmd.TunnelOpenRequestCmd, none⟩))
 
 def getRef {α} (xs : List α) (r : Int) : Option (Nat × α) :=
   if r < 0 then none else
@@ -251,9 +267,12 @@ def execH (v : Variant) (h : Handler) (w : World) (f : Nat) (c : Cmd) : Run :=
     | none => Run.err
     | some (i, m) =>
       if (v == .repaired && id == 0) || id != m.listen then Run.err else
-      match online w m.target with
-      | none => Run.err
+      match online w (nodeOf w f) m.target with
       | some tc => ⟨true, .none, if tc == f then [.map i] else [], [], [⟨tc, c11.cmd.TunnelOpenRequestCmd, none⟩], []⟩
+      | none =>
+        -- not on this node: with a bridge manager the request is broadcast for the MAPPING's target
+        -- (the body's target_client_id is never read), and accepted whether or not anybody has that client
+        if w.bridge then ⟨true, .none, [], [], broadcastOpen w m.target, []⟩ else Run.err
   | .traffic =>
     if c.bad then Run.err else
     match getRef w.maps c.m with
@@ -268,7 +287,7 @@ def execH (v : Variant) (h : Handler) (w : World) (f : Nat) (c : Cmd) : Run :=
     match tgt with
     | none => dnsErr w f
     | some t =>
-      match online w t with
+      match online w (nodeOf w f) t with
       | none => dnsErr w f
       | some tc =>
         if isCtl w f then ⟨true, .ok, [], [], [⟨tc, if q then c11.cmd.DNSQuery else c11.cmd.DNSResolve, none⟩], []⟩
@@ -282,7 +301,7 @@ def execH (v : Variant) (h : Handler) (w : World) (f : Nat) (c : Cmd) : Run :=
     if v == .repaired && id == 0 then Run.failResp else
     if c.g == 0 then Run.failResp else
     if c.g == Int.ofNat id then Run.failResp else
-    match online w c.g with
+    match online w (nodeOf w f) c.g with
     | none => Run.failResp
     | some tc => Run.okResp [] [] [⟨tc, c11.cmd.NotifyClient, if id == 0 then none else some id⟩]
   | .codeGen =>
@@ -340,7 +359,18 @@ def exec (v : Variant) (w : World) (f : Nat) (c : Cmd) : Run :=
   | none => Run.err                                 -- "no handler registered for command type"
   | some h => execH v h w f c
 
-/-- the same packet with the claimed identity fields blanked -/
-def Cmd.strip (c : Cmd) : Cmd := { c with snd := "0", rcv := "0", tok := "-" }
+/-- Commands whose body `target_client_id` is, by protocol design, the addressee the sender chooses
+(DNS forward, client-to-client notification).  For every other command a client id in the body is a
+claimed field. -/
+def addressed (c : Cmd) : Bool :=
+  match dispatch c.ctype c.resp with
+  | some (.dnsReq _) => true
+  | some .sendNotify => true
+  | _ => false
+
+/-- the same packet with the claimed fields blanked: `SenderId`, `ReceiverId`, `Token`, and the body's
+`target_client_id` unless the command is `addressed` -/
+def Cmd.strip (c : Cmd) : Cmd :=
+  { c with snd := "0", rcv := "0", tok := "-", g := if addressed c then c.g else 0 }
 
 end Tunnox.C11
